@@ -2,7 +2,7 @@
 
 Literal recipes:  ["i",n] ["s",str] ["f",x] ["b",bool] ["none"] ["ell"] ["bytes",latin1-str]
                   ["tuple",[L..]] ["list",[L..]] ["dict",[[L,L]..]] ["fset",[L..]]
-                  ["slice",[a,b,c]]  (ints or null)   ["builtin", name]
+                  ["slice",[a,b,c]]  (ints or null, or literal recipes)   ["builtin", name]
                   ["T", root, steps]    nested expression (root "T"/"S"/"A")
                   ["Spec", L]           Spec(L) where L is a T recipe
                   ["tval", path]        a value *owned by the target* (test harness only): the object
@@ -45,7 +45,8 @@ def build_lit(r, target=None):
     if tag == 'dict':
         return dict((build_lit(k, target), build_lit(v, target)) for k, v in r[1])
     if tag == 'slice':
-        return slice(*r[1])
+        # (a part is an int / null, or - C18 - itself a literal recipe: slice(None, int), slice(0, slice(len, None)))
+        return slice(*[build_lit(p, target) if isinstance(p, list) else p for p in r[1]])
     if tag == 'builtin':
         return getattr(builtins, r[1])
     if tag == 'T':
